@@ -36,7 +36,9 @@ SYM = {'EQ': '=', 'NE': '<>', 'LT': '<', 'GT': '>', 'LE': '<=', 'GE': '>='}
 
 def pool(rng=None, extra=0):
     d = datetime.datetime
-    nums = [0, 1, -1, 5, 10, 2, 0.5, -2.5, 1.0, 1e10, -0.0, 43831, 61]
+    nums = [0, 1, -1, 5, 10, 2, 0.5, -2.5, 1.0, 1e10, -0.0, 43831, 61,
+            0.3, 0.1 + 0.2, 1.0000000000000002, 1000000000000001, 1000000000000002, -9007199254740993,
+            -9007199254740992, 2.5e-300, 2.5000000000000004e-300, 123456789012345.67, 123456789012345.69]
     dates = [d(2020, 1, 1), d(1900, 3, 1), d(1999, 12, 31)]
     texts = ['', 'a', 'A', 'ab', 'aB', 'B', 'b', '1', '5', '10', '-1', 'true', 'TRUE', 'false', 'abc', 'ABD',
              ' ', 'z', 'Z', 'a b', '0', 'True', '1e3', '#N/A', 'abcd']
